@@ -19,7 +19,7 @@ def popRecs : Nat → Nat → Toks → Option (List (Rec Nat) × Toks)
     let (y, r) ← popNat r
     let (d, r) ← popNat r
     let (xs, r) ← popRecs n (k + 1) r
-    pure ({ year := y, doy := d, val := k } :: xs, r)
+    pure ({ year := y, doy := d, val := k, bad := y == 0 } :: xs, r)   -- year 0 = the date did not parse
 
 def fmtNats_Weather (xs : List Nat) : String := " ".intercalate (xs.map toString)
 
@@ -37,7 +37,7 @@ def weatherMulti (toks : Toks) : Option String := do
     some (fmtNats_Weather ([ms.yrz] ++ idx.map ms.store.jarAt ++ idx.map ms.store.maxAt ++ ids))
 
 def statusName : YStatus → String
-  | .ok => "ok" | .gap => "gap" | .panic => "panic" | .nofile => "nofile" | .empty => "empty"
+  | .ok => "ok" | .gap => "gap" | .panic => "panic" | .nofile => "nofile" | .empty => "empty" | .beyond => "beyond"
 
 /-- a sequence of year files read into the same store: `k [year hasfile n T*n]*k` -/
 def yearsLoop : Nat → Nat → Store Nat → Toks → Option (List String)
